@@ -6,6 +6,7 @@ import random
 
 VOF = {"scalar": 1, "sse2": 16, "sse42": 16, "avx": 32, "avx2": 32, "avx512": 64}
 OPS = ["set", "add", "sub", "mul"]
+OPS5 = OPS + ["div"]          # the symbolic carrier has no division; real-type runs use all five
 
 def vwidth(isa, sz):
     return max(VOF[isa] // sz, 1)
@@ -40,8 +41,25 @@ def encode(f, l, s, n, rng, rank1, allow_neg=True):
         return (-1, 0, 1)                              # integer index -1
     return (f, l, s)
 
+def reversed_with_ext(n, e, rng):
+    """a negative-step triple first > last >= 0 selecting e elements (undocumented; real-type runs only), or None"""
+    cands = [s for s in (-1, -1, -2, -3) if (e - 1) * (-s) + 1 <= n - 1]
+    if not cands or e < 1:
+        return None
+    s = rng.choice(cands)
+    lowest = rng.randint(1, n - 1 - (e - 1) * (-s))        # the last selected element; 0 cannot be reached (last >= 0)
+    f = lowest + (e - 1) * (-s)
+    l = rng.randint(max(0, f + e * s), lowest - 1)
+    return (f, l, s)
+
+REVERSED_P = [0.0]     # probability that range_with_ext returns a reversed range (set by the real-type generators)
+
 def range_with_ext(n, e, rng, rank1=False, steps=(1, 1, 2, 3), allow_neg=True):
     """random admissible triple selecting exactly e elements of an axis of n, or None"""
+    if REVERSED_P[0] > 0 and rng.random() < REVERSED_P[0]:
+        t = reversed_with_ext(n, e, rng)
+        if t is not None:
+            return t
     cands = [s for s in steps if (e - 1) * s + 1 <= n]
     if not cands or e < 1:
         return None
@@ -64,7 +82,7 @@ def write_txt(op, rk, c, dst, src=None, src2=None, na=False):
     if src2 is not None: parts.append(rs(src2))
     return ".".join(parts)
 
-def rand_write(dims, rd, V, rng, rks, op=None, dst=None, force_rd=False):
+def rand_write(dims, rd, V, rng, rks, op=None, dst=None, force_rd=False, ops=None):
     """one non-aliased write.  rks: allowed rhs kinds; t x f m only when the extents equal rd"""
     rank1 = len(dims) == 1
     if dst is None:
@@ -82,8 +100,10 @@ def rand_write(dims, rd, V, rng, rks, op=None, dst=None, force_rd=False):
     exts = [ext_of(t, n) for t, n in zip(dst, dims)]
     avail = [k for k in rks if k in "sve" or (exts == list(rd) and (k != "m" or len(dims) <= 2) and (k != "f" or len(dims) >= 2))]
     rk = rng.choice(avail)
-    op = op or rng.choice(OPS)
+    op = op or rng.choice(ops or OPS)
     c = rng.choice([2, 3, 5, -1, -4, 7])
+    if op == "div" and rk == "s":
+        c = rng.choice([2, 4, -2, -4, 8])      # 1-D/2-D views divide by multiplying with 1/c: exact for powers of two
     src = src2 = None
     if rk in "ve":
         src = [range_with_ext(n, e, rng, rank1) for n, e in zip(dims, exts)]
